@@ -38,9 +38,10 @@ RULE = ("fun stream: vectors of 12-16 components (boundary type x lower/upper fi
         "inside the bounds (the configured initial values or other points, earlier points revisited), each asked as "
         "function+gradient in one call, function then gradient from the cached function values, or gradient only; optionally "
         "a VariableScaler (power-of-two scales, dyadic offsets) or a dict round trip of the validated configuration; "
-        "relative perturbations with an infinite bound and arrays of a wrong size (rejected). Non-trivial = some component's "
-        "pre-boundary value lies outside its bounds (fun) / some row sent to the evaluator differs from the point or the "
-        "configuration is rejected (eval); distinct = distinct case hash.")
+        "relative perturbations with an infinite bound -- on a free or on a FIXED (masked-out) variable -- and arrays of a "
+        "wrong size (rejected). Non-trivial = some component's "
+        "pre-boundary value lies outside its bounds (fun) / some row sent to the evaluator differs from the point (eval; "
+        "rejected configurations count as trivial, only the outcome kind is compared); distinct = distinct case hash.")
 ASSUMPTIONS = [
     "bounds are proper: lower < +inf, upper > -inf, lower <= upper (VariablesConfig rejects lower > upper; a vector inside the bounds exists only then); the checker rejects any case that violates this",
     "values, magnitudes and samples are finite (no NaN / inf entries); the evaluated points are inside the bounds (checked)",
@@ -115,7 +116,7 @@ def _sample_value(rng, full):
     return rng.randint(-16, 16) * rng.choice([1 / 64, 1 / 4, 1 / 4, 4])
 
 
-def _eval_case(rng, full=False, force_reject=False, force_shape=False, force_scaler=None):  # noqa: C901, PLR0912
+def _eval_case(rng, full=False, force_reject=False, force_shape=False, force_scaler=None, fixed_relative=False):  # noqa: C901, PLR0912
     V = rng.randint(3, 5) if force_shape else rng.randint(1, 5)
     R = rng.randint(1, 3)
     P = rng.randint(1, 4)
@@ -178,6 +179,26 @@ def _eval_case(rng, full=False, force_reject=False, force_shape=False, force_sca
         mask = [rng.random() < 0.6 for _ in range(V)]
         if not any(mask):
             mask[rng.randrange(V)] = True
+    if fixed_relative:
+        # a FIXED (masked-out) variable of RELATIVE type whose bound range is infinite; every free variable is acceptable.
+        # fix_perturbations must reject the configuration: there is no range to take the fraction of (accepted, the fixed
+        # variable would get an infinite magnitude and inf * 0 = NaN in every perturbed vector)
+        if V == 1:
+            return _eval_case(rng, full, fixed_relative=True)
+        if mask is None or all(mask):
+            mask = [rng.random() < 0.6 for _ in range(V)]
+            mask[rng.randrange(V)] = False
+            if not any(mask):
+                mask[[i for i in range(V) if not mask[i]][0] - 1] = True
+        k = rng.choice([i for i in range(V) if not mask[i]])
+        if math.isfinite(lbs[k]) and math.isfinite(ubs[k]):
+            if rng.random() < 0.5:
+                ubs[k] = INF
+            else:
+                lbs[k] = -INF
+        pts = ([pts[0]] * V if len(pts) == 1 else list(pts))
+        pts = [ABSOLUTE if not (math.isfinite(lb) and math.isfinite(ub)) else p_ for p_, lb, ub in zip(pts, lbs, ubs)]
+        pts[k] = RELATIVE
     scripts = [[[[_sample_value(rng, full) for _ in range(V)] for _ in range(P)] for _ in range(R)] for _ in range(ns)]
     # a VariableScaler (dyadic stream only: power-of-two scales and dyadic offsets keep every float operation exact)
     scaler = None
@@ -215,6 +236,8 @@ def gen_cases(tier, rng):
         yield _eval_case(rng, force_reject=True)
     for _ in range(n_rej // 2):
         yield _eval_case(rng, force_shape=True)
+    for _ in range(n_rej):
+        yield _eval_case(rng, fixed_relative=True)
     for _ in range(n_sc):
         yield _eval_case(rng, force_scaler=True)
 
@@ -241,7 +264,8 @@ def _run_fun(case):
     got3 = _apply_bounds(y3, np.array([c[1] for c in comps], dtype=np.float64),
                          np.array([c[2] for c in comps], dtype=np.float64), np.array([c[0] for c in comps], dtype=np.ubyte))
     same = got3.shape == (2, 3, len(comps)) and bool(np.all(got3 == got))
-    return {"got": [float(v) for v in got], "array_same": same}
+    from ropt.ensemble_evaluator import _gradient
+    return {"got": [float(v) for v in got], "array_same": same, "mirror_repeat": int(_gradient.MIRROR_REPEAT)}
 
 
 def _run_eval(case):
@@ -253,6 +277,7 @@ def _run_eval(case):
     from ropt.evaluator import EvaluatorResult
     from ropt.plugins import PluginManager
     from ropt.plugins.sampler.base import Sampler, SamplerPlugin
+    from ropt.ensemble_evaluator import _gradient
     from ropt.results import GradientResults
 
     calls = []
@@ -334,7 +359,7 @@ def _run_eval(case):
     return {"rejected": False,
             "mags": [float(v) for v in cfg.gradient.perturbation_magnitudes],
             "bts": [int(v) for v in cfg.gradient.boundary_types],
-            "calls": out_calls, "V": V}
+            "calls": out_calls, "V": V, "mirror_repeat": int(_gradient.MIRROR_REPEAT)}
 
 
 def run_impl(case):
@@ -392,7 +417,22 @@ def _near(a, b, S):
     return abs(_F(a) - b) <= Fr(1, 10**12) * _F(S) + Fr(1, 10**9) * abs(b)
 
 
-def _component_clauses(t, lb, ub, pre, got, exact, S, where):
+def _fold(lb, ub, pre, rep):
+    """the value a point reflected back and forth between two finite walls ends at, for overshoots of at most 2*rep
+    bound widths (rep = the repeat count the implementation documents: "repeat the mirroring a few times"); None beyond"""
+    lo, hi = _F(lb), _F(ub)
+    w = hi - lo
+    d = lo - pre if pre < lo else pre - hi
+    if w <= 0 or d <= 0 or d > 2 * rep * w:
+        return None
+    n = -((-d) // (2 * w)) - 1          # 2nw < d <= 2(n+1)w
+    e = d - 2 * n * w
+    if pre < lo:
+        return lo + e if e <= w else lo + 2 * w - e
+    return hi - e if e <= w else hi - 2 * w + e
+
+
+def _component_clauses(t, lb, ub, pre, got, exact, S, where, rep=None):
     """pre: Fraction (the pre-boundary value), got: float (implementation)."""
     eq = (lambda a, b: _F(a) == b) if exact else (lambda a, b: _near(a, b, S))
     lo_ok = (not math.isfinite(lb)) or _F(lb) <= pre
@@ -416,6 +456,10 @@ def _component_clauses(t, lb, ub, pre, got, exact, S, where):
             r = 2 * _F(ub) - pre
             if ((not math.isfinite(lb)) or _F(lb) <= r) and not eq(got, r):
                 return {"clause": "mirror-reflects-at-violated-bound", "detail": {"at": where, "pre": float(pre), "got": got, "lb": lb, "ub": ub}}
+        if rep is not None and math.isfinite(lb) and math.isfinite(ub):
+            z = _fold(lb, ub, pre, rep)
+            if z is not None and not eq(got, z):
+                return {"clause": "mirror-repeated-reflection", "detail": {"at": where, "pre": float(pre), "got": got, "want": float(z), "lb": lb, "ub": ub}}
     return None
 
 
@@ -450,7 +494,7 @@ def oracle(case, obs):  # noqa: C901, PLR0911, PLR0912
             return {"clause": "shape", "detail": "the (R, P, V) array is not processed row by row like a single vector"}
         S = _mag([v for c in case["comps"] for v in c[1:]])
         for i, ((t, lb, ub, y), got) in enumerate(zip(case["comps"], obs["got"])):
-            v = _component_clauses(t, lb, ub, _F(y), got, case["exact"], S, i)
+            v = _component_clauses(t, lb, ub, _F(y), got, case["exact"], S, i, obs.get("mirror_repeat"))
             if v:
                 return v
         return None
@@ -509,7 +553,8 @@ def oracle(case, obs):  # noqa: C901, PLR0911, PLR0912
                 for v in range(V):
                     s = _F(case["scripts"][owner[v]][r][p][v]) if owner[v] is not None else Fr(0)
                     pre = _F(x[v]) + mags[v] * s
-                    viol = _component_clauses(bts[v], case["lbs"][v], case["ubs"][v], pre, urow[v], exact, S, [k, r, p, v])
+                    viol = _component_clauses(bts[v], case["lbs"][v], case["ubs"][v], pre, urow[v], exact, S, [k, r, p, v],
+                                              obs.get("mirror_repeat"))
                     if viol:
                         return viol
                     # the reported (optimizer-domain) perturbed variable is the same point
@@ -527,7 +572,7 @@ def nontrivial(case, obs):
     if case["kind"] == "fun":
         return any(not (lb <= y <= ub) for _, lb, ub, y in case["comps"])
     if obs["rejected"]:
-        return True
+        return False      # rejected at configuration time: only the outcome kind is compared
     return any(row != c["x"] for c, oc in zip(case["calls"], obs["calls"]) for row in oc["rows"])
 
 
@@ -557,6 +602,9 @@ def features(case, obs):
             "revalidate": bool(case.get("revalidate")), "x_is_initial": case["calls"][0]["x"] == case["x"],
             "nonpositive_magnitude": any(m <= 0 for m in case["ms"]),
             "mixed_none": NONE in case["bts"] and len(set(case["bts"])) > 1,
+            "relative_on_fixed_infinite": case["mask"] is not None and len(case["pts"]) == len(case["x"]) and any(
+                p == RELATIVE and not m and not (math.isfinite(a) and math.isfinite(b))
+                for p, m, a, b in zip(case["pts"], case["mask"], case["lbs"], case["ubs"])),
             "half_open": any(math.isfinite(a) != math.isfinite(b) for a, b in zip(case["lbs"], case["ubs"])),
             "bts_scalar": len(case["bts"]) == 1}
 
@@ -633,8 +681,9 @@ MANIFEST = {
     "level_note": ("Not covered: NaN/inf values, improper bounds (lower=+inf, upper=-inf, lower>upper; rejected by the checker), "
                    "non-positive scales. Under a scaler the model is evaluated in the optimizer domain; that this equals boundary "
                    "handling in the user domain is proved for C11's model (C11_apply_bounds_equivariant) and judged here by the "
-                   "independent user-domain oracle. Beyond a single reflection the property text does not fix the MIRROR_BOTH value: "
-                   "the oracle only demands membership there, the in-Coq comparison demands the model's value. Trusted: Coq kernel + "
+                   "independent user-domain oracle. Between two finite bounds the oracle demands the repeatedly reflected value for "
+                   "overshoots up to 2*MIRROR_REPEAT widths (the constant is read from the tree under test) and membership beyond; "
+                   "the in-Coq comparison demands the model's value everywhere. Trusted: Coq kernel + "
                    "VM, the translator (MIRROR_REPEAT, BoundaryType/PerturbationType codes), the Python driver and literal printer, "
                    "NumPy's elementwise float operations (exact on the dyadic stream; tolerance 1e-9 on the full-precision stream), "
                    "pydantic validation. All theorems print 'Closed under the global context'."),
